@@ -61,6 +61,16 @@ def cases(rng, tier):
             yield Case(program=render(v.expr), tag='value-print', monitor='c18_expect', data=VL.spec_format(v))
         except ValueError:
             pass
+        # one collection holding host-equal numbers of different kinds (1 / 1.0 / True-like, 0 / 0.0 / −0.0, 2^64 as integer
+        # and as real, …): every item prints as *itself*, in order (seeded change S18h shared the printed text per host value)
+        eqs = rng.choice([[VL.vint(1), VL.vfloat(1.0)], [VL.vint(0), VL.vfloat(0.0), VL.vfloat(-0.0)], [VL.vfloat(-0.0), VL.vint(0)],
+                          [VL.vint(2 ** 64), VL.vfloat(float(2 ** 64))], [VL.vfloat(1e22), VL.vint(10 ** 22)], [VL.vint(-3), VL.vfloat(-3.0)],
+                          [VL.vbool(True), VL.vint(1), VL.vfloat(1.0)], [VL.vbool(False), VL.vfloat(0.0), VL.vint(0)],
+                          [VL.vint(7), VL.vint(7), VL.vfloat(7.0), VL.vint(7)], [VL.vstr("1"), VL.vint(1), VL.vbytes(b"1")]])
+        eqs = eqs if rng.random() < 0.5 else list(reversed(eqs))
+        for wrapped in (VL.vlist(eqs), VL.vexc(eqs), VL.vlist([VL.vlist(eqs), eqs[0]]), VL.vio(VL.vlist(eqs)),
+                        VL.vdict([(VL.vint(9), VL.vlist(eqs))])):
+            yield Case(program=render(wrapped.expr), tag='mixed-equal-items', monitor='c18_expect', data=VL.spec_format(wrapped))
         # a dictionary prints the same whatever the insertion order
         keys = rng.sample([VL.vint(i) for i in range(-3, 12)] + [VL.vstr(s) for s in ["a", "b", "B", "10", "9", "가", ""]] +
                           [VL.vbool(True), VL.vnil(), VL.vfloat(2.5), VL.vbytes(b"a"), VL.vlist([VL.vint(1)])], rng.randint(0, 6))
